@@ -81,6 +81,15 @@ def build_filters(ctx, features_drop=()):
                                    ast.Compare(ast.Eq(), ast.BinOp(op(), ast.Integer(c), ast.BinOp(ast.Add(), I(col), ast.Integer("8"))), ast.Integer(rhs)))
                 filters.append(ast.UnaryOp(ast.Not(), ast.Compare(ast.NotEq(), ast.BinOp(op(), I(col), ast.Integer(c)), ast.Integer("0")))) if not (op in (ast.Div, ast.Mod) and c == "0") else None
     filters = [f for f in filters if f is not None]
+    # arithmetic on two INTEGER LITERALS, every sign combination, inexact quotients (truncation toward zero vs floor; the sign of a remainder), shifted so that
+    # the result falls on a value the rows hold
+    for a, b in [(-7, 2), (7, -2), (-9, 2), (9, -2), (-1, 2), (1, -2), (7, 2), (-7, -2), (-7, 3), (7, -3)]:
+        A, B = ast.Integer(str(a)), ast.Integer(str(b))
+        for op in (ast.Mod, ast.Add, ast.Sub, ast.Mult) + (() if ("div" in features_drop) else (ast.Div,)):
+            for off in ("0", "1", "2", "3", "4", "5"):
+                filters.append(ast.Compare(ast.Eq(), I("i1"), ast.BinOp(ast.Add(), ast.BinOp(op(), A, B), ast.Integer(off))))
+            filters.append(ast.Compare(ast.Gt(), I("i1"), ast.BinOp(op(), A, B)))
+            filters.append(ast.UnaryOp(ast.Not(), ast.Compare(ast.Lt(), I("i2"), ast.BinOp(op(), A, B))))
     # chains of three and four `eq` terms on ONE field joined by `or`, with a null test at every position (a rewrite into IN (...) loses the null test)
     def orchain(terms):
         e = terms[0]
